@@ -391,31 +391,31 @@ theorem three_steps (ref q : List Nat) (reg : Region) (k : Nat) (out : List Vari
 /-! ### a whole feature -/
 
 /-- the specification's records of a feature, codon by codon from codon index k -/
-def recsFrom (ref q : List Nat) (reg : Region) : Nat → List Nat → List Variant
-  | k, a :: b :: c :: t => codonRecs ref q reg k [a, b, c] ++ recsFrom ref q reg (k + 1) t
+def codonRecsFrom (ref q : List Nat) (reg : Region) : Nat → List Nat → List Variant
+  | k, a :: b :: c :: t => codonRecs ref q reg k [a, b, c] ++ codonRecsFrom ref q reg (k + 1) t
   | _, _ => []
 
 theorem fold_codons (ref q : List Nat) (reg : Region) (hl : ref.length = q.length) (hr : OkRow ref) (hq : OkRow q) :
     ∀ (n : Nat) (ps : List Nat) (k : Nat) (out : List Variant), ps.length ≤ n → ValidPositions ref q ps →
     (ps.foldl (aaStep (ref.map (enc false)) (q.map (enc false)) (refCols (ref.map (enc false))) reg)
-        { codonSnps := [], codon := [], aaCounter := k, out := out }).out = out ++ recsFrom ref q reg k ps := by
+        { codonSnps := [], codon := [], aaCounter := k, out := out }).out = out ++ codonRecsFrom ref q reg k ps := by
   intro n
   induction n with
   | zero =>
     intro ps k out hn _
     have : ps = [] := by cases ps <;> simp_all
-    subst this; simp [recsFrom]
+    subst this; simp [codonRecsFrom]
   | succ n ih =>
     intro ps k out hn hv
     match ps, hn, hv with
-    | [], _, _ => simp [recsFrom]
+    | [], _, _ => simp [codonRecsFrom]
     | [a], _, hv =>
       obtain ⟨_, x, _, _, _, e⟩ := aaStep_at ref q reg { codonSnps := [], codon := [], aaCounter := k, out := out } a hl hr hq (hv a (by simp))
-      simp only [List.foldl_cons, List.foldl_nil, e, recsFrom]
+      simp only [List.foldl_cons, List.foldl_nil, e, codonRecsFrom]
       simp
     | [a, b], _, hv =>
       obtain ⟨_, xa, _, _, _, ea⟩ := aaStep_at ref q reg { codonSnps := [], codon := [], aaCounter := k, out := out } a hl hr hq (hv a (by simp))
-      simp only [List.foldl_cons, List.foldl_nil, ea, recsFrom]
+      simp only [List.foldl_cons, List.foldl_nil, ea, codonRecsFrom]
       simp only [List.nil_append, List.length_cons, List.length_nil, Nat.zero_add, Nat.reduceEqDiff, if_false]
       obtain ⟨_, xb, _, _, _, eb⟩ := aaStep_at ref q reg
         { codonSnps := if differsAt ref q a then [nucRecord ref q a] else [], codon := [upper xa], aaCounter := k, out := out } b hl hr hq (hv b (by simp))
@@ -426,7 +426,7 @@ theorem fold_codons (ref q : List Nat) (reg : Region) (hl : ref.length = q.lengt
       rw [h3, List.foldl_append]
       rw [three_steps ref q reg k out a b c hl hr hq (hv a (by simp)) (hv b (by simp)) (hv c (by simp))]
       rw [ih t (k + 1) _ (by simp at hn; omega) (fun p hp => hv p (by simp [hp]))]
-      simp only [List.cons_append, List.nil_append, recsFrom, List.append_assoc]
+      simp only [List.cons_append, List.nil_append, codonRecsFrom, List.append_assoc]
 
 theorem chunks3_length : ∀ (n : Nat) (ps : List Nat), ps.length ≤ n → (chunks3 ps).length = ps.length / 3 := by
   intro n
@@ -448,25 +448,25 @@ theorem regionRecords_eq_gen (ref q : List Nat) (reg : Region) : ∀ (n : Nat) (
     ((chunks3 ps).zip (List.range' k (ps.length / 3))).flatMap (fun (codon, k) =>
       match aaCall ref q reg k codon with
       | some v => [v]
-      | none => (codon.filter (differsAt ref q)).map (nucRecord ref q)) = recsFrom ref q reg k ps := by
+      | none => (codon.filter (differsAt ref q)).map (nucRecord ref q)) = codonRecsFrom ref q reg k ps := by
   intro n
   induction n with
   | zero => intro ps k h; have : ps = [] := by cases ps <;> simp_all
-            subst this; simp [chunks3, recsFrom]
+            subst this; simp [chunks3, codonRecsFrom]
   | succ n ih =>
     intro ps k h
     match ps, h with
-    | [], _ => simp [chunks3, recsFrom]
-    | [_], _ => simp [chunks3, recsFrom]
-    | [_, _], _ => simp [chunks3, recsFrom]
+    | [], _ => simp [chunks3, codonRecsFrom]
+    | [_], _ => simp [chunks3, codonRecsFrom]
+    | [_, _], _ => simp [chunks3, codonRecsFrom]
     | a :: b :: c :: t, h =>
       have hdiv : (a :: b :: c :: t).length / 3 = t.length / 3 + 1 := by simp only [List.length_cons]; omega
       rw [hdiv, List.range'_succ]
-      simp only [chunks3, List.zip_cons_cons, List.flatMap_cons, recsFrom]
+      simp only [chunks3, List.zip_cons_cons, List.flatMap_cons, codonRecsFrom]
       rw [ih t (k + 1) (by simp at h; omega)]
       rfl
 
-theorem regionRecords_eq (ref q : List Nat) (reg : Region) : regionRecords ref q reg = recsFrom ref q reg 0 reg.positions := by
+theorem regionRecords_eq (ref q : List Nat) (reg : Region) : regionRecords ref q reg = codonRecsFrom ref q reg 0 reg.positions := by
   unfold regionRecords
   rw [List.range_eq_range']
   exact regionRecords_eq_gen ref q reg _ reg.positions 0 (Nat.le_refl _)
